@@ -69,12 +69,18 @@ HasMutation(d) == \E i \in 1..Len(d) : d[i].type = "mutation"
 (* GET carries exactly one request in the query string (every integration     *)
 (* builds BatchRequest::Single from it); POST carries a JSON object or, where *)
 (* the entry accepts it, a JSON array of BatchLen requests.                   *)
+(* accept = "mixed": the request asks for multipart/mixed (Accept: multipart/ *)
+(* mixed; boundary="graphql"; subscriptionSpec="1.0"); the ready-made services *)
+(* then extract a single request and run it through Executor::execute_stream   *)
+(* instead of execute_batch -- a second path to the executor behind the same   *)
+(* GET branch.  The property does not depend on it.                            *)
 SingleCells == { c \in [integ : Integrations, entry : {"service", "single", "batch"}, method : Methods,
-                        frame : {"single"}, items : SeqsOf(Items, 1)] :
+                        accept : {"json", "mixed"}, frame : {"single"}, items : SeqsOf(Items, 1)] :
                    /\ c.entry \in Entries(c.integ)
-                   /\ c.method = "GET" => AcceptsGet(c.integ, c.entry) }
+                   /\ c.method = "GET" => AcceptsGet(c.integ, c.entry)
+                   /\ c.accept = "mixed" => c.entry = "service" }
 BatchCells  == { c \in [integ : Integrations, entry : {"service", "batch"}, method : {"POST"},
-                        frame : {"batch"}, items : SeqsOf(Items, BatchLen)] :
+                        accept : {"json"}, frame : {"batch"}, items : SeqsOf(Items, BatchLen)] :
                    c.entry \in Entries(c.integ) /\ AcceptsBatch(c.integ, c.entry) }
 Cells == SingleCells \cup BatchCells
 
@@ -164,5 +170,7 @@ CellDemands == /\ cell.method = "GET" => ExpectedEffects(cell) = 0 /\ Len(cell.i
 Terminates == <>(pc = "done")
 
 (* ---- mode G ----------------------------------------------------------------- *)
-Emit == pc = "recv" => PrintT(<<"REPLAY", ToJson(cell)>>)
+\* every initial state is one cell of the matrix; the generator needs no steps (NEXT GNext)
+Emit  == pc = "recv" => PrintT(<<"REPLAY", ToJson(cell)>>)
+GNext == FALSE /\ UNCHANGED vars
 =============================================================================
